@@ -157,4 +157,27 @@ def generate(shapes, seed, tier='quick'):
             off = 0
             lines.append('H %s %s %d %s | %s | %s' % (cid, sid, off, hexs(garbage(rng, n)), ini, ' | '.join(ops)))
             meta[cid] = {'op': 'H', 'shape': sid, 'off': off, 'len': n, 'init': ini, 'ops': ops}
+        # ---- the offset of a sealed item must stay below L::MAX: items whose span is just below / at / above it
+        if t[0] == 'flex' and INTS[t[2]][0] == 1 and t[1][0] in ('vec', 'str') and align(t) == 1:
+            et = t[1]
+            es = ssize(et[1]) if et[0] == 'vec' else 1
+            ed = min_size(et)
+            os_ = min_size(t)
+            if es in (1, 2):
+                for j, span in enumerate([253, 254, 255, 256]):
+                    k = (span - os_ - ed) // es
+                    if k < 0 or INTS[et[2] if et[0] == 'vec' else et[1]][0] == 1 and k > 255:
+                        continue
+                    if et[0] == 'vec':
+                        big = '(viter%s)' % ''.join(' ' + gen_init(et[1], rng, 1, allow_default=False) for _ in range(k))
+                    else:
+                        big = '(str %s)' % hexs(bytes([0x61 + (x % 26) for x in range(k)]))
+                    small = gen_init(et, rng, 1)
+                    for variant, (ini, ops) in enumerate([('empty', ['(push %s)' % big, '(push %s)' % small, '(pop)', '(push %s)' % small]),
+                                                           ('(flex %s %s)' % (big, small), ['(pop)', '(push %s)' % small]),
+                                                           ('(flex %s)' % small, ['(push %s)' % big, '(push %s)' % small, '(truncate 1)'])]):
+                        cid = '%s.HB%d_%d' % (sid, j, variant)
+                        n = 2 * span + 40
+                        lines.append('H %s %s 0 %s | %s | %s' % (cid, sid, hexs(garbage(rng, n)), ini, ' | '.join(ops)))
+                        meta[cid] = {'op': 'H', 'shape': sid, 'off': 0, 'len': n, 'init': ini, 'ops': ops}
     return lines, meta
